@@ -887,6 +887,16 @@ func (vfs *MemFS) rename(oldpath, newpath string) (again bool, err error) {
 
 	oPath, nPath := oPI.Path(), nPI.Path()
 	if oPath == nPath {
+		if _, ok := oChild.(*dirNode); ok {
+			// os.Rename refuses an existing directory as new name, even the same one.
+			err := vfs.err.FileExists
+			if vfs.OSType() == avfs.OsWindows {
+				err = avfs.ErrWinAccessDenied
+			}
+
+			return false, &os.LinkError{Op: op, Old: oldpath, New: newpath, Err: err}
+		}
+
 		return false, nil
 	}
 
